@@ -65,6 +65,7 @@ htp_cfg_t *cfg_from_spec(const char *spec0) {
         else if (!strcmp(k, "bomb")) htp_config_set_compression_bomb_limit(cfg, v);
         else if (!strcmp(k, "spaceuri")) htp_config_set_allow_space_uri(cfg, (int) v);
         else if (!strcmp(k, "lws")) htp_config_set_requestline_leading_whitespace_unwanted(cfg, HTP_DECODER_DEFAULTS, v);
+        else if (!strcmp(k, "log")) htp_config_set_log_level(cfg, (enum htp_log_level_t) v);
         else if (!strcmp(k, "urlenc")) { if (v) htp_config_register_urlencoded_parser(cfg); }
         else if (!strcmp(k, "mpart")) { if (v) htp_config_register_multipart_parser(cfg); }
         else goto bad;
